@@ -40,5 +40,9 @@ b3p = os.path.join(H, 'benign3', 'RESULT.json')
 if os.path.exists(b3p):
     b3 = json.load(open(b3p))
 text = text.replace('@B3N@', str(b3['n'])).replace('@B3FIRST@', str(b3['first'])).replace('@B3NOW@', str(b3['now']))
+b4 = {'n': '-', 'first': '-', 'now': '-'}
+if os.path.exists(os.path.join(H, 'benign4', 'RESULT.json')):
+    b4 = json.load(open(os.path.join(H, 'benign4', 'RESULT.json')))
+text = text.replace('@B4N@', str(b4['n'])).replace('@B4FIRST@', str(b4['first'])).replace('@B4NOW@', str(b4['now']))
 open(os.path.join(H, 'DESIGN.md'), 'w').write(text)
 print('DESIGN.md', sum(len(x.splitlines()) for x in out), 'lines')
